@@ -159,7 +159,7 @@ TEXT = {
     "C02": _t("After every client frame of every replayed schedule TLC checks on the trace that the reference client has no dangling reference and that every event is applicable (held resource, kind, index range); the readiness replay (SubReadyTrace.tla against SubReadyOps) requires that a subscription is collected only after all its references are ready or visited, that a ready callback fires - and a subscription is marked sent - only when nothing reachable is still loading.", TECH),
     "C03": _t("spec/SubQueue.tla (one subscription's event queue under every interleaving of events, loading, new references, re-check triggers, access answers and the client leaving) is model-checked exhaustively for NoLossNoReorder and IdleDrained; every queue note of the replayed gateway schedules is replayed per subscription object through the same operators (spec/SubQueueTrace.tla: path of every event, processed only when not queueing and only as the received event or the queue head, flags and lengths). At the client boundary: sequence-numbered custom and change events - order, duplicates, gaps at delivery time, completeness at quiescence per (client, resource) holding period, and no event for a resource the client does not hold (before it is handed over / after release).",
               "TLC exhaustive on SubQueue.tla + per-note conformance (SubQueueTrace.tla) + observer rules on gateway traces"),
-    "C04": _t("Access ledger in the observer: every response that hands a root resource to a client must be backed by a get grant answered for that connection that no processed trigger has invalidated. Table access: every access response over 6 x 8 x 5 member options (get / call / error present, null, of the wrong JSON type; result absent, null, an array) through the real decoder and CanGet / CanCall, checked by TLC against spec/fn/ResAccess.tla (an error response is never a grant, whatever its code).",
+    "C04": _t("Access ledger in the observer: every response that hands a root resource to a client must be backed by a get grant answered for that connection that no processed trigger has invalidated. Table access: every access response over 6 x 8 x 5 member options (get / call / error present, null, of the wrong JSON type; result absent, null, an array) through the real decoder and CanGet / CanCall, checked by TLC against spec/fn/ResAccess.tla (an error response is never a grant, whatever its code). Table httpaccess: 30 access responses x 4 meta members x HTTP GET / POST of two methods through the real ServeHTTP; TLC checks status, body and service requests against the same verdict (a meta object without a status changes nothing about the grant).",
               TECH + " + function table of access verdicts checked by TLC against spec/fn/ResAccess.tla"),
     "C05": _t("Every call forwarded to a service must be backed by a valid grant allowing the method; every access/call/auth request must carry the connection's current token.", TECH),
     "C06": _t("spec/SubQueue.tla is model-checked for TriggerKept / DeferredOnlyWhileQueueing / Rechecked (a trigger is never forgotten and leads to an access request or the end of the subscription); SubQueueTrace.tla checks on every gateway trace that a re-check is never started while queueing, is deferred only while queueing and that the deferred flag equals the model's. At the boundary, after each processed trigger on a directly subscribed resource: an access request sent after the trigger follows, nothing handed over after the trigger is delivered before the verdict, a refusal ends in an unsubscribe event with the reason; after a token change every direct subscription is re-checked.",
@@ -169,14 +169,14 @@ TEXT = {
     "C08": _t("spec/DirectCount.tla states the counter design (count at receipt, give back on failure / get, limit) with Exact, UnsubRule and LimitHeld; TLC shows them for the repaired design and shows UnsubRule violated for the code-shaped variant - finding KF-H as a named deviation. On the real gateway: per (connection, rid) counter of confirmed direct subscriptions compared with the gateway's snapshot at quiescence; every unsubscribe outcome predicted from the counter; the limit-256 schedule.",
               "TLC exhaustive on DirectCount.tla (design, both variants) + TLC-generated schedules replayed on the real gateway, traces validated by the observer spec"),
     "C09": _t("MQ boundary rules (get only under an established event subscription, no duplicate subscription), use count = subscribers at quiescence, nothing left after the (fake-time) eviction delay, gauges zero.", TECH),
-    "C10": _t("Every client frame scanned for every live connection id; every connection-bound request must carry the id of a live connection and its token; a token reset's auth request only for a connection whose own non-empty token id is listed (resets listing an empty id, connections without a token id).", TECH),
+    "C10": _t("Every client frame scanned for every live connection id; every connection-bound request must carry the id of a live connection and its token; a token reset's auth request only for a connection whose own non-empty token id is listed (resets listing an empty id, connections without a token id). Table httptoken: the token of every request of an HTTP call while the service sets, replaces or revokes the temporary connection's token during header auth and during the access request (spec/fn/HttpTokenCheck.tla).", TECH),
     "C11": _t("Disconnects at arbitrary points of the schedules; after the connection's conn subscription is removed no request may carry its id, it must be gone from the snapshot, use counts must match subscribers. spec/ConnQueue.tla (Enqueue / outputWorker / dispose of a connection: every accepted closure runs exactly once in order, also those queued behind the dispose closure, refusals only after it, the worker leaves exactly when everything has run) is model-checked exhaustively; the cq* notes of every gateway trace are replayed against it by ConnQueueTrace.tla; spec/ConnQueueInd.tla (its counting abstraction) carries an inductive invariant that Apalache checks, and spec/ConnQueueProof.tla proves it with TLAPS, so the safety part holds for any number of closures.",
               "TLAPS proof (ConnQueueProof.tla) + TLC exhaustive on ConnQueue.tla + Apalache inductive invariant (ConnQueueInd.tla) + TLC-generated schedules with disconnects replayed on the real gateway, traces validated by the observer spec (incl. the ConnQueueTrace replay)"),
     "C13": _t("Query families: aliasing queries, query events with every answer kind; convergence (C01 predicate) per alias rid, lock released at quiescence, no stall.", TECH),
     "C12": _t("spec/ResSub.tla (cached content against an ordered service channel: initial get, state / custom events, silent mutations revealed by resets, re-fetch) is model-checked exhaustively: no gap, subscribers told what the cache holds, convergence, one re-fetch at a time, every reset eventually re-fetched. Pattern matching and both diff routines are checked exhaustively over bounded domains against definitional TLA+ modules (spec/fn/ResPattern.tla, ResDiff.tla); the protocol part (re-fetch of exactly the matching cached resources, convergence after silent mutations + reset) is checked on replayed schedules by the observer.",
               "TLC exhaustive on ResSub.tla + exhaustive function tables checked by TLC against spec/fn + TLC-generated schedules with resets validated by the observer spec",
               note="Tables: patterns <= 4 (thorough 5) symbols over {a,b,.,*,>,?} plus invalid-character variants x all valid names <= 5 over {a,b,.}; collections <= 3 (4) long over three value tokens; models over 2 (3) keys x 5 value options. " + GW_NOTE),
-    "C15": _t("Any panic of the gateway process or failure to reach quiescence in any replayed schedule of any family is a violation; the crashing schedule is the replay. The malformed family injects 33 event shapes and 29 response shapes, including the boundary indexes of the collection as cached (remove at its length, add one past it). Table values: every value object over 8 x 5 x 6 x 5 member options (rid / soft / data / action present, null, of the wrong JSON type, empty, invalid, ambiguous combinations, extra members) plus primitives and arrays, in the four places a service can put a value, through the real decoders; TLC checks the kind of value or the rejection against spec/fn/ResValue.tla.", TECH),
+    "C15": _t("Any panic of the gateway process or failure to reach quiescence in any replayed schedule of any family is a violation; the crashing schedule is the replay. The malformed family injects 33 event shapes and 29 response shapes, including the boundary indexes of the collection as cached (remove at its length, add one past it), and a directed schedule sends 13 client frames that are no request (empty, blank, not an object, cut short, without an id) next to a bystander connection. Table values: every value object over 8 x 5 x 6 x 5 member options (rid / soft / data / action present, null, of the wrong JSON type, empty, invalid, ambiguous combinations, extra members) plus primitives and arrays, in the four places a service can put a value, through the real decoders; TLC checks the kind of value or the rejection against spec/fn/ResValue.tla.", TECH),
 }
 NOT_YET = {}
 
